@@ -21,8 +21,10 @@ type Behaviour struct {
 	Repeat int // informational
 }
 
-func Good(body []byte) Behaviour            { return Behaviour{Kind: "good", Body: body} }
-func Status(code int, body []byte) Behaviour { return Behaviour{Kind: "status", Code: code, Body: body} }
+func Good(body []byte) Behaviour { return Behaviour{Kind: "good", Body: body} }
+func Status(code int, body []byte) Behaviour {
+	return Behaviour{Kind: "status", Code: code, Body: body}
+}
 func Garbage() Behaviour {
 	return Behaviour{Kind: "garbage", Body: []byte("<html><body>this is not a CRL \x00\x01\x02</body></html>")}
 }
